@@ -71,10 +71,16 @@ def explore(ctx):
             if colls:
                 p = rng.choice(colls)
                 node = G.get_at_path(c.doc, p)
+                how = rng.random()
                 if node[0] == 'q':
                     inner = ('q', list(node[1]) + [('*', 'cyc')], node[2])
-                else:
+                elif how < 0.4:
                     inner = ('m', list(node[1]) + [(G.S('self'), ('*', 'cyc'))], node[2])
+                elif how < 0.7:
+                    # a cycle that runs through mapping keys only
+                    inner = ('m', list(node[1]) + [(('*', 'cyc'), G.S('1'))], node[2])
+                else:
+                    inner = ('m', list(node[1]) + [(('m', [(('*', 'cyc'), G.S('2'))], None), G.S('1'))], node[2])
                 doc2 = G.replace_at(c.doc, p, lambda d: ('&', 'cyc', inner))
                 try:
                     c2 = L.build_case(rng, yaml, yatiml, c.spec, c.doc_type, doc2, ('cycle', p))
@@ -127,6 +133,42 @@ def explore(ctx):
         if oa != oi:
             ctx.violation('with the alias: {}; with a copy written out: {}'.format(str(oa)[:150], str(oi)[:150]),
                           dict(L.describe(ca), key='alias:{}'.format(ca.text[:60]), inlined_text=ci.text))
+    # one node read under two different key types: Dict[<string-like>, V] next to Any / Dict[str, V] / a class
+    for _ in range(ctx.budget(40, 600)):
+        kkind = rng.choice(['str', 'userstring', 'yatimlstring'])
+        key_cls = dict(name='Key', bases=[], registered=True, kind=kkind)
+        vt = rng.choice([('int',), ('str',), ('seq', 'list', ('int',))])
+        t1 = ('map', 'dict', ('cls', 'Key'), vt)
+        t2 = rng.choice([('any',), ('map', 'dict', ('str',), vt), ('map', 'mapping', ('cls', 'Key'), vt),
+                         CM.t_opt(('map', 'dict', ('str',), vt))])
+        ts = [t1, t2]
+        rng.shuffle(ts)
+        params = [dict(name='a', type=ts[0]), dict(name='b', type=ts[1])]
+        holder = dict(name='Holder', bases=[], registered=True, kind='plain', params=params, all_params=params,
+                      extra=False, abstract=None, define_init=True)
+        spec = [key_cls, holder]
+        keys = rng.sample(['x', 'y', 'k1', 'true', '12'], rng.randint(0, 3))
+        val = {'int': lambda: G.S(str(rng.randint(0, 9))), 'str': lambda: G.S(rng.choice(['v', 'w'])),
+               'seq': lambda: ('q', [G.S('1')], None)}[vt[0]]
+        target = ('m', [(G.S(k), val()) for k in keys], None)
+        aliased = ('m', [(G.S('a'), ('&', 'm1', target)), (G.S('b'), ('*', 'm1'))], None)
+        inlined = ('m', [(G.S('a'), target), (G.S('b'), target)], None)
+        try:
+            ca = L.build_case(rng, yaml, yatiml, spec, ('cls', 'Holder'), aliased, ('alias-keytypes',))
+            L.run_case(ca, yaml)
+            ci = L.build_case(rng, yaml, yatiml, spec, ('cls', 'Holder'), inlined, ('inlined-keytypes',))
+            L.run_case(ci, yaml)
+        except Exception as e:  # noqa
+            ctx.count('build_error:' + type(e).__name__)
+            continue
+        cases.append(ca)
+        cases.append(ci)
+        oa, oi = c13.base_outcome(ca), c13.base_outcome(ci)
+        ctx.case((ca.text, 'keytypes', repr(ts)), nontrivial=bool(keys))
+        ctx.count('alias_pairs_keytypes')
+        if oa != oi:
+            ctx.violation('with the alias: {}; with a copy written out: {}'.format(str(oa)[:150], str(oi)[:150]),
+                          dict(L.describe(ca), key='alias-keytypes:{}'.format(ca.text[:60]), inlined_text=ci.text))
     LC.correspond(ctx, cases)
 
 
